@@ -32,6 +32,15 @@ type c03Fun struct {
 
 var c03Vars = []string{"a", "b", "c"}
 
+func indexOf(xs []string, x string) int {
+	for i, y := range xs {
+		if y == x {
+			return i
+		}
+	}
+	return 0
+}
+
 func (g *c03Gen) u() string { g.uniq++; return fmt.Sprint(100 + g.uniq) }
 
 func (g *c03Gen) push() { g.scopes = append(g.scopes, map[string]bool{}) }
@@ -134,6 +143,17 @@ func (g *c03Gen) stmt(ind string, depth int, inFunc bool) {
 		v := c03Vars[g.pick("name", len(c03Vars))]
 		g.push() // the for statement's own scope
 		g.scopes[len(g.scopes)-1][v] = true
+		if g.pick("twoHeaderVars", 3) == 0 {
+			// a header declaring two variables from the colliding pool
+			v2 := c03Vars[(g.pick("name2", len(c03Vars)-1)+1+indexOf(c03Vars, v))%len(c03Vars)]
+			g.scopes[len(g.scopes)-1][v2] = true
+			w("%s (%s %s = 0, %s = %s; %s < 2; %s = %s + 1) {", bn.KwFor, bn.KwVar, v, v2, g.u(), v, v, v)
+			g.b.WriteString(ind + "  " + bn.KwPrint + " " + v2 + ";\n")
+			g.block(ind+"  ", depth-1, inFunc, 1+g.pick("n", 2))
+			w("}")
+			g.pop()
+			return
+		}
 		if g.pick("braced", 3) == 0 {
 			w("%s (%s %s = 0; %s < 2; %s = %s + 1)", bn.KwFor, bn.KwVar, v, v, v, v)
 			w("  %s %s;", bn.KwPrint, g.nameFor(false))
@@ -250,7 +270,7 @@ func (c *Ctx) c03Program(s *Sub, sub, src string) {
 	}
 }
 
-var c03Small = map[string]int{"initform": 3, "falsy": 2, "name": 2, "bias": 2, "n": 1, "truth": 2, "else": 2, "braced": 2, "arity": 2, "param": 2, "ret": 2, "global": 2, "fun": 1}
+var c03Small = map[string]int{"twoHeaderVars": 2, "name2": 1, "initform": 3, "falsy": 2, "name": 2, "bias": 2, "n": 1, "truth": 2, "else": 2, "braced": 2, "arity": 2, "param": 2, "ret": 2, "global": 2, "fun": 1}
 
 func TestC03(t *testing.T) {
 	Main(t, "C03", func(c *Ctx) {
